@@ -101,8 +101,14 @@ def hexblocks(blocks):
 def main_protocol(run, replay):
     """stdin JSON {tier, seed} -> run(tier, seed); {replay: payload} -> replay(payload)."""
     req = json.load(sys.stdin)
-    if "replay" in req:
-        out = replay(req["replay"])
-    else:
-        out = run(req.get("tier", "quick"), int(req.get("seed", 0)))
+    real_stdout = sys.stdout
+    sys.stdout = sys.stderr  # whatever the code under test prints must not end up in the result channel
+    try:
+        if "replay" in req:
+            out = replay(req["replay"])
+        else:
+            out = run(req.get("tier", "quick"), int(req.get("seed", 0)))
+    finally:
+        sys.stdout = real_stdout
+    sys.stdout.write("\n@@VF-RESULT@@")
     json.dump(out, sys.stdout, default=str)
